@@ -146,6 +146,7 @@ def check_log_file(ctx):
 
 
 def check(ctx):
+    wal.check_block_tail(ctx)      # a reused log keeps the block grid
     from . import c02 as _c02
     _c02.check_env_read(ctx)      # replay sees the whole log
     wal.check_torn_tail(ctx)
